@@ -48,7 +48,9 @@ def scenarios(tier, rng):
     arith = []
     for mod in (C01, C02, C03):
         sc = mod.scenarios(sub, rng)["ux_arith"]
-        arith += [s for s in sc if s["bits"] <= 6 or s["bits"] in (63, 64, 65, 128, 256)][:: 1 if not quick else 5]
+        arith += [s for s in sc if s["op"] != "sum" and (s["bits"] <= 6 or s["bits"] in (63, 64, 65, 128, 256))][:: 1 if not quick else 5]
+        # the iterator folds (Sum / Product, by value and by reference) are few: all of them, also at 3 and 5 limbs
+        arith += [s for s in sc if s["op"] == "sum" and (s["bits"] <= 6 or s["bits"] in (63, 64, 65, 128, 192, 256, 257, 320))]
     bitsg = []
     for mod in (C05, C06):
         sc = mod.scenarios(sub, rng)["ux_bits"]
